@@ -73,12 +73,12 @@ theorem setSeqNum_runSpec (c : Conn) (hcl : c.Clean) (h : Handle) (out inn : Opt
   · simp only [h1, if_true]
     exact runSpec_ret _ _ c _ _ n (fun _ => rfl) (fun _ => hcl)
   by_cases h2 : inn.any (· ≤ 0) = true
-  · simp only [h1, h2, if_true, if_false]
+  · simp only [h1, h2, if_true]
     exact runSpec_ret _ _ c _ _ n (fun _ => rfl) (fun _ => hcl)
   simp only [h1, h2, if_false, Bool.false_eq_true]
   have h1' : out.any (· ≤ 0) = false := by simpa using h1
   have h2' : inn.any (· ≤ 0) = false := by simpa using h2
-  simp only [h1', h2', Bool.or_self, Bool.not_false, Bool.true_and, Bool.false_or]
+  simp only [Bool.or_self, Bool.not_false, Bool.true_and, Bool.false_or]
   generalize hh2 : ({ h with nextOut := effOut h out, nextIn := effIn h inn } : Handle) = H2
   apply runSpec_exec _ _ _ _ _ _ _ _ _ rfl
   intro m1
@@ -123,7 +123,7 @@ theorem setSeqNum_runSpec (c : Conn) (hcl : c.Clean) (h : Handle) (out inn : Opt
         have hb3 : (Stmt.deleteFrom h.key (effOut h out) .outbound).bindOk = false := by
           simp [Stmt.bindOk, Stmt.params, hkey, h5']
         obtain ⟨hr3, hw3, hc3⟩ := exec_fail c2 _ hb3
-        simp only [h5', Bool.not_false, if_true, Bool.and_false, Bool.not_false]
+        simp only [h5', Bool.not_false, if_true]
         generalize (c2.exec (.deleteFrom h.key (effOut h out) .outbound)) = e3 at *
         obtain ⟨c3, r3⟩ := e3
         simp only at hr3 hw3 hc3 ⊢
@@ -135,7 +135,7 @@ theorem setSeqNum_runSpec (c : Conn) (hcl : c.Clean) (h : Handle) (out inn : Opt
       have hb2 : (Stmt.deleteFrom h.key (effIn h inn) .inbound).bindOk = false := by
         simp [Stmt.bindOk, Stmt.params, hkey, h4']
       obtain ⟨hr2, hw2, hc2⟩ := exec_fail c1 _ hb2
-      simp only [h4', Bool.not_false, if_true, Bool.false_and, Bool.and_false]
+      simp only [h4', Bool.not_false, if_true, Bool.false_and]
       generalize (c1.exec (.deleteFrom h.key (effIn h inn) .inbound)) = e2 at *
       obtain ⟨c2, r2⟩ := e2
       simp only at hr2 hw2 hc2 ⊢
